@@ -1,19 +1,31 @@
 from engine import Obl
 
 META = {
- "level_text": "CBMC bounded model checking of the real qb_vsnprintf_serialize / qb_vsnprintf_deserialize (lib/log_format.c with lib/strlcpy.c, lib/strlcat.c) for a table of 15 numeric/pointer/char/'*'/literal/'%%' formats: the record buffer has EXACTLY max_len bytes (6, 12 or 24, one obligation each) and the decode buffer exactly str_len bytes (symbolic 1..16); all argument values are symbolic over their full range, as is the text length libc reports per directive. SAT decides: encode never writes outside the reserved space and reports <= max_len; decode of every non-truncated record stays inside the caller's buffer and terminates it; the arguments decode hands to snprintf equal the original ones (directive-level faithfulness).",
+ "level_text": "CBMC bounded model checking of the real qb_vsnprintf_serialize / qb_vsnprintf_deserialize (lib/log_format.c with lib/strlcpy.c, lib/strlcat.c) for a table of 15 numeric/pointer/char/'*'/literal/'%%' formats: the record buffer has EXACTLY max_len bytes (6, 12 or 24) and the decode buffer exactly str_len bytes (symbolic 1..16); all argument values are symbolic over their full range, as is the text length libc reports per directive. SAT decides: encode never writes outside the reserved space and reports <= max_len; decode of every non-truncated record stays inside the caller's buffer and terminates it; the arguments decode hands to snprintf equal the original ones (directive-level faithfulness).",
  "level_note": "Format strings are scenario constants: a symbolic format makes CBMC unwind the parser's nine 'goto reprocess' back-edges as nested loops (no result in 200 s). String directives (%s, %.Ns, several %s) are NOT decided: with a symbolic or constant string argument the scenarios did not finish in 100 s (the suspected defects there - precision state carried across directives, location passing max_len after a truncated %s - are listed in DESIGN.md as not decided). libc's own formatting is a contract stub, so 'same text as printf' is relative to printf's compositionality. Trusted: CBMC, strchrnul reference model.",
  "technique": "CBMC bounded model checking (SAT) of real C code over a table of constant format strings with symbolic arguments and exact-size buffers",
  "assumptions": ["allocation never fails", "records that did not fit (encode returned max_len) are not decoded, as in _blackbox_vlogger"],
 }
-FAST = [0, 1, 2, 3, 4, 5, 6, 7, 8, 9, 13, 14, 15]
+# entry index of the harness table (after the SKIP_STRINGS renumbering in c14_formats.c) -> format string
+FORMATS = {0: "plain", 1: "%d", 2: "a%ub", 3: "%-5x", 4: "%ld", 5: "%lld", 6: "%zu", 7: "%f", 8: "%.2e", 9: "%c",
+           10: "%p", 11: "100%%", 12: "%*d", 13: "abc%d%c", 14: "abcdefghijklmno%d%c"}
+# One table, max_len an obligation constant, split into groups of scenarios that are decided on different cores.
+# Measured on an idle machine (cbmc 6.11, per scenario): 14-19 s for the one-directive formats, 1-2 s for the
+# directive-free ones, 95 s for "abc%d%c" at max_len 24 (two directives decoded with room to spare), which is why
+# that scenario is an obligation of its own.  The per-scenario budget is the engine's floor (900 s), ~9 x the slowest
+# measurement: the former 120 s budget was 1.26 x and was exceeded on a slower run of the unchanged tree.
+GROUPS = [("two-directives", [13, 14]), ("int", [1, 2, 3, 12]), ("long", [4, 5, 6, 10]), ("dbl-chr-lit", [7, 8, 9, 0, 11])]
 def obligations(tier):
     obs = []
     for ml in ([12, 24] if tier == "quick" else [6, 12, 24]):
-        # scenario indices are contiguous in the harness table; string scenarios are skipped through SKIP_STRINGS
-        obs.append(Obl("formats-maxlen%d" % ml, "c14_formats.c", defs=["MAXLEN_CONST=%d" % ml, "SLEN_CONST=3", "SKIP_STRINGS", "VERIF_WITNESS_ALL"],
-                       unwind=26, n_entries=16, expect_unreached="^W:(decoded|encoded)",
-                       timeout=120, mem_gb=4,
-                       bounds={"formats": "plain, %d, a%ub, %-5x, %ld, %lld, %zu, %f, %.2e, %c, %p, 100%%, %*d, abc%d%c, abcdefghijklmno%d%c (a %c reached with the record exactly full at max_len 12 / 24)", "max_len": ml, "str_len": "1..16", "arguments": "full range"},
-                       units=["lib/log_format.c", "lib/strlcpy.c", "lib/strlcat.c"], stubs=["snprintf = recorder + bounded writer", "strchrnul reference model"]))
+        for gname, idxs in GROUPS:
+            obs.append(Obl("formats-maxlen%d-%s" % (ml, gname), "c14_formats.c",
+                           defs=["MAXLEN_CONST=%d" % ml, "SLEN_CONST=3", "SKIP_STRINGS", "VERIF_WITNESS_ALL"],
+                           unwind=26, n_entries=16, entries=idxs, expect_unreached="^W:(decoded|encoded)",
+                           timeout=900, mem_gb=4,
+                           bounds={"formats": ", ".join(FORMATS[i] for i in sorted(idxs)) +
+                                              (" (a %c reached with the record exactly full at max_len 12 / 24)" if 13 in idxs else ""),
+                                   "max_len": ml, "str_len": "1..16", "arguments": "full range"},
+                           units=["lib/log_format.c", "lib/strlcpy.c", "lib/strlcat.c"],
+                           stubs=["snprintf = recorder + bounded writer", "strchrnul reference model"]))
     return obs
